@@ -45,6 +45,8 @@ def same(a, b) -> bool:
     if isinstance(a, (list, tuple)):
         return len(a) == len(b) and all(same(x, y) for x, y in zip(a, b))
     try:
+        if isinstance(a, (float, np.floating)) and isinstance(b, (float, np.floating)) and a != a and b != b:
+            return True                      # NaN is the same value as NaN
         r = a == b
         return bool(r) if not isinstance(r, np.ndarray) else bool(r.all())
     except Exception:
@@ -113,8 +115,9 @@ def log_mode(qualnames=()):
 class Objective:
     """deterministic integer/dyadic-valued objective that records every batch it receives"""
 
-    def __init__(self, kind="onemax", scale=1.0, offset=0.0, reuse_buffer=False):
+    def __init__(self, kind="onemax", scale=1.0, offset=0.0, reuse_buffer=False, int_offset=None):
         self.kind, self.scale, self.offset = kind, scale, offset
+        self.int_offset = int_offset        # not None: return int64 values  int_offset + round(4*value)
         self.batches = []
         self.reuse_buffer, self._buf = reuse_buffer, None
 
@@ -122,6 +125,8 @@ class Objective:
         X = np.asarray(X)
         if X.dtype == object:  # trees etc: use len / hash based integer value
             v = np.array([float(len(t)) for t in X], dtype=np.float64)
+            if self.kind == "nanstrip" and self.batches:      # defined everywhere on the initial population
+                v = np.where(v % 4 == 3, np.nan, v)
         else:
             Xf = X.astype(np.float64)
             if self.kind == "onemax":
@@ -139,6 +144,12 @@ class Objective:
                 v = Xf @ w
             elif self.kind == "minx":
                 v = -Xf.min(axis=1)
+            elif self.kind == "nanstrip":
+                # an objective that is undefined (NaN) on a strip of the search space
+                binary = Xf.shape[1] >= 2 and set(np.unique(Xf)) <= {0.0, 1.0}
+                v = Xf.sum(axis=1) if binary else -(Xf ** 2).sum(axis=1)
+                if self.batches:                                  # defined everywhere on the initial population
+                    v = np.where((Xf[:, 0] == 1) & (Xf[:, 1] == 1) if binary else np.abs(Xf[:, 0]) > 1.5, np.nan, v)
             else:
                 raise ValueError(self.kind)
         return v * self.scale + self.offset
@@ -150,6 +161,8 @@ class Objective:
             self.batches.append((snap(X), v.copy()))
             return v
         v = self.value(X)
+        if self.int_offset is not None:
+            v = np.int64(self.int_offset) + np.floor(4.0 * v).astype(np.int64)
         self.batches.append((snap(np.asarray(X)), v.copy()))
         if self.reuse_buffer:
             # an admissible objective may write into a preallocated output buffer and return the SAME array object every call
